@@ -55,6 +55,7 @@ def run(prog: Program, rep: Report, tier: str) -> None:
     from ..rules.freshname import check_generators_once
     check_generators_once(rep, prog, 'C05-D2 fresh-name one-shot', [prog.func('fggs.utils', 'unique_label_name')])
     rep.floor('C05-D2', nc, 2)
+    avoid_parameter(rep, prog)
 
     # D3
     carry_over(rep, prog)
@@ -309,3 +310,40 @@ def child_recursion(rep: Report, prog: Program) -> None:
             rep.ob(rule, v.fq(), f"for {n} in {norm(l.iter)}: {what} iff {n} != {parent}", v.loc(l), not bad and bool(nodes),
                    '; '.join(bad[:3]) if bad else 'every neighbour bag except the parent is processed'
                    + (f" (universally quantified conditions: {unknown})" if unknown else ''))
+
+
+def avoid_parameter(rep: Report, prog: Program) -> None:
+    """factorize_rule(rule, method, labels): the caller's avoid set is used when one is given (it is replaced by a fresh set only
+    when it is None), and the label whose name is the base of the fresh names is itself in the avoid set before the first
+    name is drawn (unique_label_name returns the base name unchanged when it is free)."""
+    rule = 'C05-D2 fresh-name avoid-parameter'
+    f = prog.func(FZ, 'factorize_rule')
+    cfg = cfg_of(f)
+    calls = [c for g in [f] + [c for c in f.children if not c.is_lambda] for c in own_nodes(g.node) if isinstance(c, ast.Call) and callee_last(c) == 'unique_label_name' and len(c.args) >= 2]
+    params = set(f.param_names())
+    avoid = {c.args[1].id for c in calls if isinstance(c.args[1], ast.Name) and c.args[1].id in params}
+    for A in sorted(avoid):
+        # (i) rebinding of the parameter only under `A is None`
+        rebinds = [n for n, nd in cfg.nodes.items() if nd.kind == 'stmt' and isinstance(nd.stmt, ast.Assign) and any(isinstance(t, ast.Name) and t.id == A for t in nd.stmt.targets)]
+        bad = []
+        for n in rebinds:
+            r = walk(cfg, cfg.entry, Env(atoms={f"{A} is None": False}), unknown='both')
+            if n in r:
+                bad.append(cfg.describe(n))
+        rep.ob(rule, f.fq(), f"`{A}` is replaced by a fresh set only when the caller passed None", f.loc(), not bad,
+               f"{len(rebinds)} rebinding(s), all under `{A} is None`" if not bad else
+               f"{bad[0]} runs although the caller supplied `{A}`: the names already handed out for other rules are forgotten and fresh nonterminals of different rules collide")
+        # (ii) the base label is in the avoid set
+        for c in calls:
+            base = c.args[0]
+            if not (isinstance(base, ast.Attribute) and base.attr == 'name'):
+                continue
+            X = norm(base.value)
+            adds = [n for n, nd in cfg.nodes.items() if nd.kind == 'stmt' and any(isinstance(x, ast.Call) and isinstance(x.func, ast.Attribute) and x.func.attr in ('add', 'update', 'append')
+                    and norm(x.func.value) == A and x.args and (norm(x.args[0]) == X or X in [norm(e) for e in getattr(x.args[0], 'elts', [])]) for x in ast.walk(nd.stmt))]
+            # the call sits in f itself or in a nested function defined after the adds: require the add on every path from the entry to the first use of a nested def / the call
+            first_use = [n for n, nd in cfg.nodes.items() if nd.stmt is not None and nd.kind in ('stmt', 'return') and any(isinstance(x, ast.Call) and (x is c or (isinstance(x.func, ast.Name) and x.func.id in {ch.name for ch in f.children})) for x in ast.walk(nd.stmt))]
+            ok = bool(adds) and bool(first_use) and all(cfg.all_paths_pass(cfg.entry, lambda k: k in adds, targets={u})[0] for u in first_use)
+            rep.ob(rule, f.fq(), f"`{X}` is in `{A}` before {norm(c)[:60]} draws a name", f.loc(c), ok,
+                   'added on every path' if ok else f"`{X}` may be missing from `{A}`: unique_label_name then returns `{norm(base)}` itself and the new nonterminal takes the name of the rule's own left-hand side")
+    rep.floor('C05-D2 avoid parameters', len(avoid), 1)
